@@ -51,7 +51,7 @@ Record centry : Type := {           (* a registered configurable *)
 Record dstate : Type := {
   ds_reg : list centry;                          (* registration order *)
   ds_store : list ((string * string) * list (string * Z));
-  ds_imports : list dimport;                     (* _IMPORTS (recorded on successful parse) *)
+  ds_imports : list dimport;                     (* _IMPORTS (recorded as soon as an import statement took effect) *)
   ds_dynamic_seen : bool }.
 
 Record dctx : Type := {              (* one ParseContext *)
@@ -123,7 +123,10 @@ Fixpoint replace_entry (sel : string) (e : centry) (l : list centry) : list cent
   match l with [] => [] | x :: r => if String.eqb (ce_sel x) sel then e :: r else x :: replace_entry sel e r end.
 
 (* Returns the new registry, the selector of the leaf, and the re-pointings (previous latest selector of a
-   re-registered object -> its new selector) *)
+   re-registered object -> its new selector).
+   Repaired code (F22): an object that is already registered -- in _register this is a CLASS re-registered for one of its
+   methods -- keeps the selector (name, module) and the import source it has, whichever import spelling reached it this
+   time; only an unregistered object is registered under the module path derived from the import. *)
 Definition do_one (d : dimport) (reg : list centry) (names : list string) (o : pyobj) (is_method : bool)
   : dres (list centry * string * list (string * string)) :=
     match obj_id o with
@@ -131,8 +134,13 @@ Definition do_one (d : dimport) (reg : list centry) (names : list string) (o : p
     | Some i =>
         let inner := removelast (tl names) in
         let module := join_dot (partial_path d :: inner) in
-        let sel := (module ++ "." ++ last names "")%string in
-        let entry := {| ce_sel := sel; ce_obj := i; ce_method := is_method; ce_src := Some (import_source d names); ce_home := ("", "") |} in
+        let sel := match find_obj i reg with
+                   | Some e0 => ce_sel e0
+                   | None => (module ++ "." ++ last names "")%string
+                   end in
+        let entry := {| ce_sel := sel; ce_obj := i; ce_method := is_method;
+                        ce_src := match find_obj i reg with Some e0 => ce_src e0 | None => Some (import_source d names) end;
+                        ce_home := match find_obj i reg with Some e0 => ce_home e0 | None => ("", "") end |} in
         let prev := match find_obj i reg with Some e => [(ce_sel e, sel)] | None => [] end in
         match find_sel sel reg with
         (* re-registration under the same selector: _INVERSE_REGISTRY[obj] now denotes THIS registration, i.e. it
@@ -143,6 +151,9 @@ Definition do_one (d : dimport) (reg : list centry) (names : list string) (o : p
         | None => DOk (reg ++ [entry], sel, prev)
         end
     end.
+(* a method (function whose parent is a class): the class is (re-)registered -- keeping its selector when it has one --
+   and the method is homed under the CLASS'S selector (repaired code: module = parent.selector), with the import source
+   of the spelling that reached it *)
 Definition register_chain (reg : list centry) (d : dimport) (attr_names : list string) (chain : list pyobj)
   : dres (list centry * string * list (string * string)) :=
   let do_one := do_one d in
@@ -160,6 +171,60 @@ Definition register_chain (reg : list centry) (d : dimport) (attr_names : list s
                 | Some _ => DOk (reg1, sel, rp)
                 | None =>
                     (* _make_configurable (1713-1720): another object already registered under this selector *)
+                    match find_sel sel reg1 with
+                    | Some _ => DErr "ValueError"
+                    | None => DOk (reg1 ++ [{| ce_sel := sel; ce_obj := i; ce_method := true; ce_src := Some (import_source d attr_names); ce_home := ("", "") |}], sel, rp)
+                    end
+                end
+            end
+        end
+      else do_one reg attr_names leaf false
+  | _, _ => DErr "ModelError"
+  end.
+
+(* ---- the code before the repair (F22): every registration, also the re-registration of a class for one of its
+   methods, went under the module path derived from the CURRENT import: a class reached through a second import spelling
+   got a second configurable; and _find_registered_methods rejected the new class registration (ValueError, 'registered
+   with a custom module') when another method of the class was registered under the class's first selector ---- *)
+Definition sel_module (sel : string) : string := join_dot (removelast (split_dot sel)).
+Definition method_ids (o : pyobj) : list nat :=
+  flat_map (fun kv => match snd kv with PFunc j => [j] | _ => [] end) (attrs_of o).
+Definition do_one_orig (d : dimport) (reg : list centry) (names : list string) (o : pyobj) (is_method : bool)
+  : dres (list centry * string * list (string * string)) :=
+    match obj_id o with
+    | None => DErr "TypeError"
+    | Some i =>
+        let inner := removelast (tl names) in
+        let module := join_dot (partial_path d :: inner) in
+        let sel := (module ++ "." ++ last names "")%string in
+        let entry := {| ce_sel := sel; ce_obj := i; ce_method := is_method; ce_src := Some (import_source d names); ce_home := ("", "") |} in
+        let prev := match find_obj i reg with Some e => [(ce_sel e, sel)] | None => [] end in
+        (* _find_registered_methods: a registered method of the class whose module is not the class's (new) selector *)
+        if existsb (fun e => ce_method e && existsb (Nat.eqb (ce_obj e)) (method_ids o) && negb (String.eqb (sel_module (ce_sel e)) sel)) reg
+        then DErr "ValueError" else
+        match find_sel sel reg with
+        | Some e => if Nat.eqb (ce_obj e) i
+                    then DOk (filter (fun x => negb (String.eqb (ce_sel x) sel)) reg ++ [entry], sel, prev)
+                    else DErr "ValueError"
+        | None => DOk (reg ++ [entry], sel, prev)
+        end
+    end.
+Definition register_chain_orig (reg : list centry) (d : dimport) (attr_names : list string) (chain : list pyobj)
+  : dres (list centry * string * list (string * string)) :=
+  let do_one := do_one_orig d in
+  match rev chain, rev (removelast chain) with
+  | leaf :: _, parent :: _ =>
+      if is_func leaf && is_class parent then
+        match do_one reg (removelast attr_names) parent false with
+        | DErr e => DErr e
+        | DOk (reg1, csel, rp) =>
+            match obj_id leaf with
+            | None => DErr "TypeError"
+            | Some i =>
+                let sel := (csel ++ "." ++ last attr_names "")%string in
+                match find_obj i reg1 with
+                | Some _ => DOk (reg1, sel, rp)
+                | None =>
                     match find_sel sel reg1 with
                     | Some _ => DErr "ValueError"
                     | None => DOk (reg1 ++ [{| ce_sel := sel; ce_obj := i; ce_method := true; ce_src := Some (import_source d attr_names); ce_home := ("", "") |}], sel, rp)
@@ -199,6 +264,36 @@ Definition get_configurable (reg : list centry) (c : dctx) (selector : string) :
               match find_obj i reg with
               | Some e => DOk (reg, ce_sel e, [])
               | None => register_chain reg d names chain
+              end
+          end
+      end
+  end.
+
+(* the same over the registration of the code before the repair (F22) *)
+Definition get_configurable_orig (reg : list centry) (c : dctx) (selector : string) : dres (list centry * string * list (string * string)) :=
+  if negb (c_dynamic c) then
+    (* no dynamic registration in this file: _REGISTRY.get_match(selector), i.e. unique dotted suffix *)
+    let regmap := fold_left (fun m sel => sm_set (to_key sel) tt m)
+                            (["gin.macro"; "gin.constant"; "gin.singleton"] ++ map ce_sel reg) sm_empty in
+    match sm_get_match (to_key selector) regmap with
+    | MOne k _ => DOk (reg, of_key k, [])
+    | MAmbiguous => DErr "KeyError"
+    | MNone => DErr "ValueError"
+    end
+  else
+  let names := split_dot selector in
+  match tget (hd "" names) (c_table c) with
+  | None => DErr "NameError"
+  | Some (root, d) =>
+      match follow root (tl names) [] with
+      | None => DErr "AttributeError"
+      | Some chain =>
+          match obj_id (last chain POther) with
+          | None => DErr "TypeError"
+          | Some i =>
+              match find_obj i reg with
+              | Some e => DOk (reg, ce_sel e, [])
+              | None => register_chain_orig reg d names chain
               end
           end
       end
@@ -309,18 +404,38 @@ Fixpoint run_stmts (univ : list (string * pyobj)) (stmts : list dstmt) (s : dsta
 
 Definition empty_ctx : dctx := {| c_dynamic := false; c_imports := []; c_table := [] |}.
 
-(* parse_config: one fresh context per call; imports recorded only on success *)
+(* _IMPORTS.update(parse_context.imports): _IMPORTS is a set of import statements (module, from, alias); kept as a list
+   to which the statements not yet recorded are appended *)
+Definition record_imports (s : dstate) (imps : list dimport) : dstate :=
+  {| ds_reg := ds_reg s; ds_store := ds_store s;
+     ds_imports := ds_imports s ++ filter (fun d => negb (existsb (fun x => String.eqb (d_module x) (d_module d) && Bool.eqb (d_from x) (d_from d)
+                                                              && match d_alias x, d_alias d with Some a, Some b => String.eqb a b | None, None => true | _, _ => false end)
+                                                              (ds_imports s))) imps;
+     ds_dynamic_seen := ds_dynamic_seen s |}.
+
+(* parse_config: one fresh context per call.  Repaired code: `_IMPORTS.update(parse_context.imports)` runs right after every
+   import statement, so an import that took effect is recorded also when a LATER statement of the text fails.  The
+   context's list of imports only grows (process_import appends) and nothing but import statements changes it, so the
+   update made after the last import statement that was processed subsumes the earlier ones: it is the update with the
+   imports of the context the run ends in -- which run_stmts returns for a failed run too (the context AT the failing
+   statement; a failing import statement itself is not in it).  That the imports of every successfully processed prefix
+   are recorded whatever happens afterwards is Proofs/DynRegProofs2.v C19_effective_imports_recorded. *)
 Definition parse_call (univ : list (string * pyobj)) (stmts : list dstmt) (sr : dstate * list ((string * string) * string * string))
   : (dstate * list ((string * string) * string * string)) * out :=
   let '(s, refs) := sr in
   let '(s', refs', c, e) := run_stmts univ stmts s refs empty_ctx in
   match e with
+  | Some cls => ((record_imports s' (c_imports c), refs'), OErr cls)
+  | None => ((record_imports s' (c_imports c), refs'), ONone)
+  end.
+(* the code before the repair recorded the imports once, after the last statement: never when a statement failed *)
+Definition parse_call_orig (univ : list (string * pyobj)) (stmts : list dstmt) (sr : dstate * list ((string * string) * string * string))
+  : (dstate * list ((string * string) * string * string)) * out :=
+  let '(s, refs) := sr in
+  let '(s', refs', c, e) := run_stmts univ stmts s refs empty_ctx in
+  match e with
   | Some cls => ((s', refs'), OErr cls)
-  | None => (({| ds_reg := ds_reg s'; ds_store := ds_store s';
-                 ds_imports := ds_imports s' ++ filter (fun d => negb (existsb (fun x => String.eqb (d_module x) (d_module d) && Bool.eqb (d_from x) (d_from d)
-                                                                          && match d_alias x, d_alias d with Some a, Some b => String.eqb a b | None, None => true | _, _ => false end)
-                                                                          (ds_imports s'))) (c_imports c);
-                 ds_dynamic_seen := ds_dynamic_seen s' |}, refs'), ONone)
+  | None => ((record_imports s' (c_imports c), refs'), ONone)
   end.
 
 (* ---- skip_unknown under dynamic registration (config.py _should_skip 846-853, parse_config 2405-2440) ---- *)
@@ -403,12 +518,18 @@ Definition parse_call_sk (univ : list (string * pyobj)) (sk : dskip) (stmts : li
   let '(s, refs) := sr in
   let '(s', refs', c, e) := run_stmts_sk should_skip_dyn univ sk stmts s refs empty_ctx in
   match e with
+  | Some cls => ((record_imports s' (c_imports c), refs'), OErr cls)
+  | None => ((record_imports s' (c_imports c), refs'), ONone)
+  end.
+(* before the repair: nothing recorded when a statement failed *)
+Definition parse_call_sk_orig (univ : list (string * pyobj)) (sk : dskip) (stmts : list dstmt)
+           (sr : dstate * list ((string * string) * string * string))
+  : (dstate * list ((string * string) * string * string)) * out :=
+  let '(s, refs) := sr in
+  let '(s', refs', c, e) := run_stmts_sk should_skip_dyn univ sk stmts s refs empty_ctx in
+  match e with
   | Some cls => ((s', refs'), OErr cls)
-  | None => (({| ds_reg := ds_reg s'; ds_store := ds_store s';
-                 ds_imports := ds_imports s' ++ filter (fun d => negb (existsb (fun x => String.eqb (d_module x) (d_module d) && Bool.eqb (d_from x) (d_from d)
-                                                                          && match d_alias x, d_alias d with Some a, Some b => String.eqb a b | None, None => true | _, _ => false end)
-                                                                          (ds_imports s'))) (c_imports c);
-                 ds_dynamic_seen := ds_dynamic_seen s' |}, refs'), ONone)
+  | None => ((record_imports s' (c_imports c), refs'), ONone)
   end.
 
 (* ---- config_str header and selectors under dynamic registration ---- *)
@@ -483,18 +604,34 @@ Definition store_canon (s : dstate) := sort_stable (fun e : (string * string) * 
 Definition store_out (s : dstate) : out :=
   OL (map (fun e => OL [OS (fst (fst e)); OS (snd (fst e)); OL (map (fun kv => OL [OS (fst kv); OZ (snd kv)]) (snd e))]) (store_canon s)).
 
+(* observation of _IMPORTS (a set of statements): the recorded statements as sorted texts, each once *)
+Fixpoint dedup_adjacent (l : list string) : list string :=
+  match l with
+  | [] => []
+  | x :: r => match r with
+              | y :: _ => if String.eqb x y then dedup_adjacent r else x :: dedup_adjacent r
+              | [] => [x]
+              end
+  end.
+Definition imports_out (s : dstate) : out :=
+  OL (map OS (dedup_adjacent (sort_strings (map (fun d => import_format (to_simport d)) (ds_imports s))))).
+
 Definition run (p : list (string * pyobj) * list centry * list (dskip * list dstmt)) : out :=
   let '(univ, pre, calls) := p in
   let init := ({| ds_reg := pre; ds_store := []; ds_imports := []; ds_dynamic_seen := false |}, []) in
-  let '(sr, outs) := fold_left (fun acc call => let '(sr, outs) := acc in
-                                               let '(sr', o) := parse_call_sk univ (fst call) (snd call) sr in (sr', outs ++ [o]))
-                               calls (init, []) in
+  (* [snaps]: what _IMPORTS holds after EVERY parse call, failed or not *)
+  let '(sr, outs, snaps) := fold_left (fun acc call => let '(sr, outs, snaps) := acc in
+                                               let '(sr', o) := parse_call_sk univ (fst call) (snd call) sr in
+                                               (sr', outs ++ [o], snaps ++ [imports_out (fst sr')]))
+                               calls (init, [], []) in
   OL (outs ++ [store_out (fst sr); OL (map OS (sort_strings (map ce_sel (ds_reg (fst sr)))));
                (* references in store order *)
                OL (flat_map (fun e => flat_map (fun kv =>
                      map (fun r => OL [OS (fst (fst e)); OS (snd (fst e)); OS (fst kv); OS (snd r)])
                          (filter (fun r => skey_eqb (fst (fst r)) (fst e) && String.eqb (snd (fst r)) (fst kv)) (snd sr)))
                      (snd e)) (store_canon (fst sr)));
-               (* after a failed parse the recorded imports are incomplete: the header is not compared *)
+               (* the header is compared after successful parses only (what _IMPORTS holds is compared after every call,
+                  failed or not: [snaps]) *)
                if existsb (fun o => match o with OT "Err" _ => true | _ => false end) outs then OL []
-               else config_header (fst sr) (snd sr)]).
+               else config_header (fst sr) (snd sr);
+               OL snaps]).
